@@ -110,7 +110,7 @@ fn run_case(c: &Case) -> CaseResult {
 fn main() {
     let mut ctx = Ctx::init("C13");
     ctx.rule(
-        "A case is a limit N: Sieve::new(N) is compared element by element with trial division for every N in 0..=1500 (quick) / 0..=4000 \
+        "A case is a limit N: Sieve::new(N) is compared element by element with trial division for every N in 0..=1500 (quick) / 0..=12000 \
          (thorough) - min_prime(n) for 2<=n<=N, is_prime(n) for 0<=n<=N, primes() = ascending primes <= N, factorize(n) = strictly \
          increasing primes with exact exponents for every 1<=n<=N - and with an independent odd-only Eratosthenes for N = 10^6 and 10^7 (plus 3*10^7 thorough) plus limits adjacent to them, and for generated limits in 4001..300000 biased to prime squares and powers of two +-2 (factorize on a stride sample and the last 50 values there). Non-trivial = N within \
          2 of a prime or prime square and containing a composite whose least prime squared exceeds N/2, or a large limit. Distinct = \
@@ -118,7 +118,7 @@ fn main() {
     );
     ctx.replayer("sieve-case", |v| run_case(&serde_json::from_value::<Case>(v.clone()).expect("case")));
     ctx.begin();
-    let top = ctx.n(1500, 4000) as u32;
+    let top = ctx.n(1500, 12_000) as u32;
     ctx.exhaustive("every-limit", "sieve-case", &format!("every limit N in 0..={}", top), true, (0..=top).map(|limit| Case { limit, big: false }), run_case);
     let big: Vec<u32> = if ctx.thorough() { vec![999_983, 1_000_000, 1_000_003, 2_627_641, 9_999_991, 10_000_000, 16_777_216, 30_000_000] } else { vec![999_983, 1_000_000, 1_000_003, 1_018_081, 2_627_641, 10_000_000] };
     ctx.exhaustive("large-limits", "sieve-case", "limits around 10^6 (and 10^7 in the thorough tier), element by element against an independent sieve", false, big.into_iter().map(|limit| Case { limit, big: true }), run_case);
@@ -130,6 +130,6 @@ fn main() {
         2 => (12u32..=18, -2i32..=2).prop_map(|(k, d)| ((1i64 << k) + d as i64) as u32),
         1 => prop::sample::select(vec![65_521u32, 65_536, 65_537, 131_071, 131_072, 131_074, 262_144, 99_991, 100_003]),
     ];
-    ctx.prop_cfg("sampled-limits", "sieve-case", ctx.n(200, 4_000), 200, lim.prop_map(|limit| Case { limit, big: true }), run_case);
+    ctx.prop_cfg("sampled-limits", "sieve-case", ctx.n(200, 20_000), 200, lim.prop_map(|limit| Case { limit, big: true }), run_case);
     ctx.finish();
 }
